@@ -8,7 +8,7 @@ from harness import gen
 from harness.framework import CaseTimeout, Suite
 
 PID = "C17"
-LEAN_MODS = ["SwcVerif.Props.C17", "SwcVerif.Props.C17Gen"]
+LEAN_MODS = ["SwcVerif.Props.C17", "SwcVerif.Props.C17Gen", "SwcVerif.Props.C17Front"]
 TRANSLATE_ALGO = ["AlgoMst", "AlgoMstFront"]     # (AlgoMstFront: the whole __call__ up to the tree construction) Gen/AlgoMst.lean is regenerated on every run from transforms/mst.py (the greedy loop of PointsToCuntzMST.__call__)
 DRIVER_FILES = ["SwcVerif/Model/AlgoRunMst.lean", "SwcVerif/Model/AlgoRunMstFront.lean"]
 THEOREMS = ["C17.init_inv", "C17.greedy_step", "C17.step_inv", "C17.spanning", "C17.branching_limit", "C17.prim_step", "C17.prim_minimal", "C17.prim_attains",
@@ -17,12 +17,21 @@ THEOREMS = ["C17.init_inv", "C17.greedy_step", "C17.step_inv", "C17.spanning", "
             # refinement: the loop generated from PointsToCuntzMST.__call__ on this run equals the model (every n > 0, every n × n matrix, every option)
             "RefineMst.maArgmin_eq", "RefineMst.for1_step", "RefineMst.mst_loop_refines", "RefineMst.mst_loop_raises",
             "C17.generated_mst_eq_model", "C17.generated_mst_raises", "C17.generated_spanning", "C17.generated_branching_limit",
-            "C17.generated_greedy_step", "C17.generated_prim_minimal", "C17.generated_prim_attains"]
+            "C17.generated_greedy_step", "C17.generated_prim_minimal", "C17.generated_prim_attains",
+            # refinement of the WHOLE __call__ (soma handling, distance matrix with the vector norm as a parameter, loop, table assembly), regenerated on every run
+            "RefineMstFront.for1_step'", "RefineMstFront.mst_call_refines", "C17.generated_call_eq_model", "C17.table_rows", "C17.generated_call_spanning",
+            "C17.generated_call_branching_limit", "C17.generated_call_prim_minimal", "C17.generated_call_raises_empty", "C17.generated_call_raises_bad_soma"]
 TRUSTED = ["hand-written model Model/Mst.lean of the greedy loop: PROVED equal (RefineMst.mst_loop_refines, every n > 0, every n × n matrix, every option) to "
            "Gen.Algo.mst_loop, the definition the imperative translator regenerates on every run from PointsToCuntzMST.__call__ (pid = np.full … end of the "
            "for loop); trusted there: the translator and Model/Py.lean (float arrays as arrays over a numeric type, run at Rat; 2-d arrays as lists of rows; "
            "numpy.ma argmin = first least unmasked cell in row-major order, (0, 0) when all are masked), the three `subst` entries self.bf / self.furcations / "
            "self.exclude_soma = parameters, and that `n`, `dis` (computed before the segment) are the point count and its n × n distance matrix",
+           "the whole PointsToCuntzMST.__call__ up to `t = Tree.from_data_frame(df, names=names)` is regenerated as Gen.Algo.mst_call and PROVED (RefineMstFront.mst_call_refines: "
+           "every cloud of triples, optional soma triple, ANY vector norm) to return one row per point of soma :: points in input order with the model loop's parents; trusted "
+           "there (harness/algo_specs/17b_mstfront.py): Model/PyMstFront.lean (np.concatenate of rows, the pairwise-norm idiom with the norm as a parameter, P[:, c]), the table "
+           "dic/df/t as column variables keyed by `names.<field>` (legacy parameter `names` absent, `names = self.names` skipped), self.types.glia_processes / self.types.soma = "
+           "parameters, `names.r: 1` a scalar the frame broadcasts, Tree.__init__ casting x, y, z, r to float32 (suite c17.gencall compares against the cast), and the "
+           "final `if self.sort: t = sort_tree(t)` outside the segment",
            "both the model (`mst`) and the generated loop (`gmst`) are run against the real function on the distance matrix the code computes in the dtype of "
            "the cloud (float64 or float32), as exact rationals: the parent array compared exactly"]
 ASSUMPTIONS = ["prim_minimal assumes a symmetric, non-negative matrix: |p_i - p_j| computed by np.linalg.norm is both (IEEE negation is exact)",
